@@ -134,6 +134,21 @@ class DefaultSchemaOb(StmtOb):
         return {"real_ok": ro, "lifted_matches": lm, "detail": {"under_default": pick(r1), "qualified": pick(r2)}}
 
 
+class LegacyDefaultSchemaOb(DefaultSchemaOb):
+    """the same twin under the legacy non-validating (sqlparse) analyzer"""
+
+    def __init__(self, key, st, mech="override", budget=4, seed=0):
+        super().__init__(key, st, "ansi", mech, budget, seed)
+        self.dialect = "non-validating"
+        self.key = "legacy/" + self.key.replace("@ansi", "")
+
+    def prepare(self):
+        from lx.legacy import LegacyScript
+
+        self.script = LegacyScript([self.sql])
+        self.script2 = LegacyScript([self.sql2])
+
+
 def obligations(tier, seed):
     import random
 
@@ -152,6 +167,10 @@ def obligations(tier, seed):
         obs = keep + rnd.sample(rest, len(rest) // 3)
     envs = [DefaultSchemaOb(k, st, "ansi", "env", budget, seed) for k, st in tpl if "/plain" in k and k.startswith(("insert/", "ctas/"))]
     obs += envs if tier == "thorough" else rnd.sample(envs, len(envs) // 2)
+    # the legacy analyzer creates its tables elsewhere (sqlparse/models.py): same twin there
+    lsub = [(k, st) for k, st in tpl if ("/plain" in k and k.startswith("insert/") and "paren" not in k and "mixed" not in k) or k.startswith(("update/", "merge/table"))]
+    for k, st in (lsub if tier == "thorough" else rnd.sample(lsub, min(len(lsub), 16))):
+        obs.append(LegacyDefaultSchemaOb(k, st, "override", budget, seed))
     if tier == "thorough":
         for k, st in tpl:
             if "/plain" in k and k.startswith("insert/"):
